@@ -54,11 +54,12 @@ def main():
             if rc != 0:
                 print(out[-1500:]); caught["build"] = "harness build failed"; break
             binp = os.path.join(WORK, "t_h", "release" if variant == "release" else "checked", "cbverif")
-            for p in (props or ALL_A):
+            for p in (props or ALL_A + ["C13", "C14", "C17", "C19"]):
                 o = os.path.join(WORK, f"{p}.json")
                 if os.path.exists(o): os.remove(o)
+                sub = {"C13": ["cmp"], "C14": ["io", "C14", "--apis", "std"], "C17": ["alloc"], "C19": ["zst"]}.get(p, ["run", p, "--crash-file", o + ".crash"])
                 try:
-                    rc, out = sh([binp, "run", p, "--tier", "quick", "--out", o, "--crash-file", o + ".crash"], timeout=300)
+                    rc, out = sh([binp] + sub + ["--tier", "quick", "--out", o], timeout=600)
                 except subprocess.TimeoutExpired:
                     caught.setdefault(p, []).append(f"{variant}:timeout"); continue
                 if rc != 0:
@@ -67,7 +68,7 @@ def main():
                     fl = json.load(open(o))["failure"]
                     caught.setdefault(p, []).append(f"{variant}:{fl['rendered'][:90]} :: {fl['message'][:110]}")
         open(os.path.join(repo, f), "w").write(src)
-        miss = [e for e in expect if e in (props or ALL_A) and e not in caught]
+        miss = [e for e in expect if e in (props or ALL_A + ['C13', 'C14', 'C17', 'C19']) and e not in caught]
         print(f"== {mid}: suite {suite}; caught by {sorted(caught)}" + (f"  MISSED-EXPECTED {miss}" if miss else ""))
         for p, v in sorted(caught.items()):
             print(f"     {p}: {v[0] if isinstance(v, list) else v}")
